@@ -34,6 +34,10 @@ def run(ctx):
         "up only from a top-level attribute with key stack_trace while NO group is in force (tracelog.go:194); under "
         "WithGroup the same record prints the stack as an ordinary attribute <group>.stack_trace=[...] on the main "
         "line.  The model follows the code; C13.stack_lines_follow carries the 'no group in force' hypothesis",
+        "multilog's error accumulation is also run on the errs heap model of C11 (Model/Errs.lean: Errs.append / count / "
+        "message / wrappedErrors / errorOrNil): failing sinks return a fresh plain error, a fresh *errs.Error or one "
+        "long-lived sentinel *errs.Error per sink; after every record the harness prints Handle's result as "
+        "Count()[WrappedErrors()] and Count()/Message() of every sentinel, the driver prints the same from the heap",
         "buffered mode is driven deterministically: the test sink is either free (the harness waits for a sentinel "
         "record before reading the sink) or stalled with the delivery goroutine occupied by a primer record",
     ]
@@ -52,7 +56,7 @@ def run(ctx):
              tagger=_tag, timeout=1500,
              theorem="C13.format_spec / one_write_per_record / derive_isolated / stack_lines_follow / "
                      "buffered_no_dup_no_tear / fanout_each_enabled_once / fanout_nil_iff_all_ok / "
-                     "fanout_errors_collected / with_applies_to_all (model = spec); impl != model on this history")
+                     "fanout_errors_collected / handle_errors_collected_heap / handle_keeps_child_errors / with_applies_to_all (model = spec); impl != model on this history")
     if ctx.harness("./cmd/c13", name="race", race=True):
         ctx.impl_oracle("stress", {"quick": 40, "thorough": 600}, name="race", timeout=1500,
                         label="schedules: whole-record writes, per-goroutine order, sink error to its caller, "
